@@ -18,7 +18,7 @@ packet slot obtained with get_if_rx / get_if_tx in the runner arms clear_on_drop
 locked = true and the construction of IfMutexGuard; the guard is constructed only in utils::sync::mutex; its Drop clears the flag.
 """
 CLAUSES = ['a: exchange matching uses id and role', 'b: new-exchange gate', 'c: unclaimed messages discarded on every exit', 'd: drop / guard protocol',
-           'e: conditional mutex never held without a guard']
+           'e: conditional mutex never held without a guard', 'f: no lost wake-up on the shared packet slots (Signal wakes a displaced waiter)']
 NOT_DECIDED = ['liveness: subsequent traffic keeps flowing', 'interleavings of concurrent exchanges']
 MIN_OBLIGATIONS = {'q': 22, 'd': 22, 'r': 22}
 
@@ -52,6 +52,13 @@ def check(R):
                  'exch_id == .. && (flag == role)', f'{[(k, p.get("b") if isinstance(p, dict) else p) for bb, k, p in rd]}')
         gx = bodies_of(F, SESS + '::get_exch_for_rx')
         R.expect('P4', SESS + '::get_exch_for_rx', 'exchange lookup uses ExchangeState::is_for_rx', any(ES + '::is_for_rx' in b.calls_summary for b in gx), 'ok', 'is_for_rx not used')
+        # a waiting exchange claims the pending packet only if the packet belongs to ITS session - the full Session::is_for_rx match
+        # (peer address, node ids, session id, encryption kind; all unsecured sessions share session id 0) - and then to the exchange
+        rc = closure_in(R, 'transport::exchange::ExchangeId::recv', ['ExchangeState::is_for_rx'])
+        R.cut('P2', rc, 'claim the pending packet for this exchange (ExchangeState::is_for_rx)', call_bbs(rc, ES + '::is_for_rx'),
+              'the packet was received on this exchange\'s session (Session::is_for_rx)', lambda: R.call_guard(rc, SESS + '::is_for_rx'))
+        R.cut('P2', rc, 'answer `the packet is for us` (non-false result)', [bb for bb, k, pl_ in prims.result_defs(rc) if not (k == 'agg' and pl_.get('var') == 'Ok' and pl_['a'] and pl_['a'][0].get('k', {}).get('v') == 0) and not (k == 'call' and 'from_residual' in pl_.get('f', ''))],
+              'Session::is_for_rx holds', lambda: R.call_guard(rc, SESS + '::is_for_rx'))
 
     # ---- b --------------------------------------------------------------------
     with R.clause('b'):
@@ -177,6 +184,26 @@ def check(R):
         somes = [bb for bb, k, p in prims.result_defs(wc) if k == 'agg' and p.get('var') == 'Some']
         R.expect('P2', wc.fn, 'the lock is reported acquired only after setting locked = true', bool(sets) and bool(somes) and not prims.precedes(wc, sets, somes), '*locked = true precedes Some(())', 'Some(()) reachable without setting the flag')
 
+    # ---- f --------------------------------------------------------------------
+    with R.clause('f'):
+        # no lost wake-up on the shared packet slots: Signal (under IfMutex / Notification) keeps ONE waiter. When a second task starts
+        # waiting, the first must be woken so that it re-registers - either through a waitqueue primitive (*Registration::register does
+        # exactly that) or by waking the displaced waker explicitly. Silently overwriting the stored waker strands the first task.
+        is_pending = lambda b_: [i for i, j_, st in b_.stmts() if st[1].get('op') == 'agg' and st[1].get('adt') == 'core::task::poll::Poll' and st[1].get('var') == 'Pending' and not b_.is_cleanup(i)]
+        cands = [b_ for b_ in [R.body('utils::sync::signal::Signal::poll_wait')] + list(F.nested('utils::sync::signal::Signal::poll_wait')) if is_pending(b_)]
+        R.floor('body answering Poll::Pending in Signal::poll_wait', len(cands), 1)
+        pw = cands[0]
+        pend = is_pending(pw)
+        reg = [t.bb for t in pw.calls() if t.d.get('f', '').startswith('embassy_sync::waitqueue::') and t.d.get('f', '').endswith('::register')]
+        wakes = [t.bb for t in pw.calls() if t.d.get('f', '').endswith(('Waker::wake', 'Waker::wake_by_ref'))]
+        miss = prims.precedes(pw, reg + wakes, pend) if (reg or wakes) else pend
+        R.expect('P3', pw.fn, 'before answering Pending the waiter is registered through a primitive that wakes a displaced waiter', bool(reg or wakes) and not miss,
+                 f'{"*Registration::register" if reg else "explicit wake of the displaced waker"} precedes Poll::Pending',
+                 'the waker is stored without waking the waiter it replaces: with two tasks waiting on the RX / TX slot only the last one is ever woken, the other never sees its packet')
+        md = [b for b in F.bodies.values() if b.focus and b.fn.startswith('utils::sync::signal::Signal::') and '::tests::' not in b.fn
+              and any(c.endswith(('Registration::wake', 'Waker::wake', 'Waker::wake_by_ref')) for c in b.calls_summary)]
+        R.expect('P3', 'utils::sync::signal::Signal::modify', 'a modification that asks for it wakes the registered waiter', len(md) >= 1, f'{[b.fn.split("::")[-2] for b in md]}', 'no wake call left in Signal')
+
 
 def _fail_edges(R, body, callee):
     e = set()
@@ -187,6 +214,7 @@ def _fail_edges(R, body, callee):
     for t in sites:
         e |= prims.track_result(R.facts, body, t).failure
     return e
+
 
 
 def dropped_partition_rule(R):
